@@ -574,6 +574,11 @@ func runC35(env *kernel.Env) {
 			before := w.Net
 			_ = before
 			c.connErr = nil
+			// the simnet id of this connection is the next one handed out; read before the
+			// client task can dial (read after Start, a preemption of this goroutine let
+			// the task dial first once in ~10^5 runs and the id of the NEXT connection
+			// was recorded: found by the determinism self-check of the thorough tier)
+			c.NetID = w.nextNetID()
 			c.Start(c.ConnectOp("root", "", "", &c.connErr), func() {
 				if c.connErr != nil {
 					env.Fail("connect-succeeds", "connect-failed", "%s could not connect: %v", c.Name, c.connErr)
@@ -581,8 +586,6 @@ func runC35(env *kernel.Env) {
 				}
 				c.connected = true
 			})
-			// the simnet id of this connection is the next one handed out
-			c.NetID = w.nextNetID()
 		case "start":
 			c := e.c
 			op := genOp()
